@@ -11,10 +11,14 @@ from hypothesis import strategies as st
 # ----------------------------------------------------------------------------- kinds
 FAILURE_KINDS = ("fail", "assertion_sub")
 ERROR_KINDS = ("error", "error_key", "error_falsy", "xf_error")
-SKIP_KINDS = ("skip", "skip_sub", "skip_empty", "xf_skip")
+SKIP_KINDS = ("skip", "skip_sub", "skip_empty", "xf_skip", "skip_noargs", "skip_int")
 XFAIL_KINDS = ("xfail", "xfail_sub")
 UX_KINDS = ("uxsuccess", "ux_sub")
 NONEXC_KINDS = ("kbi", "sysexit", "base")
+# further non-Exception shapes (C01): exit codes that are falsy / absent, GeneratorExit, and interrupts that
+# strike inside a callable handed to a testtools helper (expectFailure, assertRaises)
+NONEXC_MORE = ("sysexit0", "sysexit_none", "genexit", "xf_kbi", "ar_kbi", "ar_sysexit")
+UNMARKED = ("skip_empty", "skip_noargs", "skip_int", "sysexit0", "sysexit_none", "genexit")   # message carries no MARK-n-
 CUSTOM_KINDS = ("customA", "customFail")
 SIMPLE_KINDS = FAILURE_KINDS + ERROR_KINDS + SKIP_KINDS + XFAIL_KINDS + UX_KINDS
 
@@ -23,7 +27,7 @@ def klass(kind):
     """Semantic class of an exception kind."""
     if kind in FAILURE_KINDS or kind == "forced" or kind == "mismatch":
         return "failure"
-    if kind in ERROR_KINDS or kind in ("setup_error", "empty_multi"):
+    if kind in ERROR_KINDS or kind in ("setup_error", "empty_multi", "upcall_error", "restore_error"):
         return "error"
     if kind in SKIP_KINDS:
         return "skip"
@@ -31,7 +35,7 @@ def klass(kind):
         return "xfail"
     if kind in UX_KINDS:
         return "uxsuccess"
-    if kind in NONEXC_KINDS:
+    if kind in NONEXC_KINDS or kind in NONEXC_MORE:
         return "nonexc"
     return "custom"
 
@@ -42,6 +46,8 @@ OUTCOME_OF_CLASS = {"failure": "addFailure", "error": "addError", "skip": "addSk
 # ----------------------------------------------------------------------------- generation
 DETAIL_NAMES = ["traceback", "traceback-1", "Failed expectation", "Failed expectation-1", "log", "log-1", "détail", "fx", "fx-1", "m",
                 "load%", "100%d"]
+TEXTS = st.sampled_from(["", "", "", " é☃", " nul\x00byte", " " + "x" * 3000, " two\nlines"])     # appended to the message
+RETS = st.sampled_from([None, None, None, "true", "zero", "obj", "gen", "str"])                       # what a stage returns
 CHUNKS = st.lists(st.sampled_from([b"", b"a", b"\xff\x00", "é".encode("utf8"), b"two\nlines", b"z" * 5]), max_size=3)
 
 
@@ -66,6 +72,8 @@ class Gen:
         pool = list(SIMPLE_KINDS)
         if self.o.get("nonexc"):
             pool += list(NONEXC_KINDS) * 2
+            if self.o.get("nonexc_more"):
+                pool += list(NONEXC_MORE)
         if self.o.get("multi"):
             pool += ["multi"] * 4
         k = self.draw(st.sampled_from(pool))
@@ -74,6 +82,8 @@ class Gen:
     def raise_action(self):
         k = self.kind()
         a = {"a": "raise", "i": self.nid(), "kind": k}
+        if self.o.get("texts") and k != "multi":
+            a["text"] = self.draw(TEXTS)
         if k == "multi":
             if self.multi_ids and self.draw(st.integers(0, 2)) == 0:
                 a["kind"] = "again"           # the very same MultipleExceptions instance raised once more
@@ -126,14 +136,24 @@ class Gen:
                 continue
             if c == "log":
                 out.append({"a": "log", "i": self.nid()})
+            elif c == "cleanup" and o.get("bursts") and depth == 0 and not self.burst_done and self.draw(st.integers(0, 30)) == 0:
+                # many cleanups at once (a recursive or capped cleanup loop shows only at such sizes)
+                self.burst_done = True
+                out.append({"a": "cleanup_burst", "i": self.nid(), "n": self.draw(st.sampled_from([40, 1100]))})
             elif c == "cleanup":
-                act = {"a": "cleanup", "i": self.nid(), "args": self.draw(st.booleans()),
+                act = {"a": "cleanup", "i": self.nid(), "args": self.draw(st.sampled_from([False, True, True, "fn"])),
                        "body": self.actions(depth + 1, "cleanup") + ([self.raise_action()] if self.draw(st.integers(0, 3)) == 0 else [])}
+                if o.get("rets"):
+                    act["ret"] = self.draw(RETS)
                 self.cleanup_ids.append(act["i"])
                 out.append(act)
             elif c == "patch":
                 obj, attr = self.target(True)
                 out.append({"a": "patch", "i": self.nid(), "obj": obj, "attr": attr, "value": "v%d" % self.nid()})
+                if self.draw(st.integers(0, 4)) == 0:
+                    # the test itself then assigns to / deletes the attribute it has just patched
+                    out.append({"a": "write", "i": self.nid(), "obj": obj, "attr": attr,
+                                "value": self.draw(st.sampled_from(["w%d" % self.nid(), "<delete>"]))})
             elif c == "read":
                 obj, attr = self.target(False)
                 out.append({"a": "read", "i": self.nid(), "obj": obj, "attr": attr})
@@ -162,12 +182,13 @@ class Gen:
             elif c in ("expect", "assert"):
                 ok = self.draw(st.booleans())
                 out.append({"a": c, "i": self.nid(), "ok": ok,
-                            "dnames": self.draw(st.lists(st.sampled_from(DETAIL_NAMES), max_size=2, unique=True))})
+                            "dnames": self.draw(st.lists(st.sampled_from(DETAIL_NAMES), max_size=2, unique=True)),
+                            "message": self.draw(st.sampled_from(["", "", "note ünï"])), "verbose": self.draw(st.booleans())})
                 if c == "assert" and not ok:
                     self.raises += 1
                     break
             elif c == "force":
-                out.append({"a": "force", "i": self.nid()})
+                out.append({"a": "force", "i": self.nid(), "value": self.draw(st.sampled_from(["True", "True", "1", "yes"]))})
             elif c == "onexc":
                 out.append({"a": "onexc", "i": self.nid()})
         return out
@@ -200,13 +221,21 @@ class Gen:
         acts = self.actions(0, where)
         if self.draw(st.integers(0, 9)) < p_raise:
             acts.append(self.raise_action())
+        if self.o.get("per_run"):
+            for a in acts:
+                # something that happens only in the first / only in a later run of the same instance
+                # (expectThat / force_failure are left out: force_failure is an attribute the test sets on itself and
+                # testtools does not reset it between runs)
+                if a["a"] in ("log", "raise", "cleanup") and "'expect'" not in repr(a) and "'force'" not in repr(a) \
+                        and self.draw(st.integers(0, 9)) == 0:
+                    a["runs"] = self.draw(st.sampled_from([[0], [1], [1, 2]]))
         return acts
 
 
 @st.composite
 def programs(draw, **opts):
     g = Gen(draw, opts)
-    decor = draw(st.sampled_from(["none"] * 8 + ["skip_method", "skip_class", "skipIf_true", "skipIf_false", "skipUnless_true", "skipUnless_false",
+    decor = draw(st.sampled_from(["none"] * 22 + ["skip_method", "skip_class", "skipIf_true", "skipIf_false", "skipUnless_true", "skipUnless_false",
                                   "expectedFailure", "expectedFailure", "skip_method_empty", "skipIf_true_empty"])) \
         if opts.get("decor") else "none"
     p = opts.get("p_raise", 3)
@@ -250,6 +279,11 @@ def programs(draw, **opts):
                              "pos": draw(st.integers(0, 5))}]
         prog["handlers_when"] = draw(st.sampled_from(["init", "setUp"]))
     prog["cells"] = g.cells
+    if opts.get("rets"):
+        prog["rets"] = {"setUp": draw(RETS), "test": draw(RETS), "tearDown": draw(RETS)}
+    if opts.get("upcall"):
+        prog["no_upcall"] = draw(st.sampled_from([None] * 8 + ["setUp", "tearDown"]))
+        prog["runner_via"] = draw(st.sampled_from([None, None, None, "ctor", "decorator"])) if decor == "none" else None
     if opts.get("extras"):
         prog["custom_skip"] = draw(st.integers(0, 4)) == 0        # skipException replaced by an unrelated class
         prog["force_outside"] = draw(st.integers(0, 6)) == 0      # force_failure set on the instance before run()
@@ -266,8 +300,9 @@ class Raised(Exception):
 class Model:
     """Executes a program spec abstractly: execution log, raised exceptions (flattened), forced failure."""
 
-    def __init__(self, prog):
+    def __init__(self, prog, run_no=0):
         self.p = prog
+        self.run_no = run_no
         self.log = []
         self.raised = []         # dicts: kind, i (marker), stage
         self.cleanups = []
@@ -294,7 +329,7 @@ class Model:
     def note(self, kind, i, stage):
         self.raised.append({"kind": kind, "i": i, "stage": stage, "handlers": self.handlers})
         k = klass(kind)
-        if kind in ("setup_error", "empty_multi"):
+        if kind in ("setup_error", "empty_multi", "upcall_error", "restore_error"):
             return
         if k in ("failure", "error", "nonexc"):
             self.gen_items.append({"type": "traceback", "marker": i, "base": "traceback", "t": len(self.log)})
@@ -321,6 +356,8 @@ class Model:
 
     def step(self, a, stage):
         t = a["a"]
+        if a.get("runs") is not None and self.run_no not in a["runs"]:
+            return True                 # not in this run of the instance
         self.log.append(("A", a["i"]))
         if t == "log":
             return True
@@ -339,6 +376,17 @@ class Model:
         if t == "cleanup":
             self.cleanups.append(("user", a))
             self.registered[a["i"]] = a
+            return True
+        if t == "cleanup_burst":
+            for k in range(a["n"]):
+                self.cleanups.append(("burst", (a["i"], k)))
+            return True
+        if t == "write":
+            o = self.objs[a["obj"]]
+            if a["value"] == "<delete>":
+                o.pop(a["attr"], None)
+            else:
+                o[a["attr"]] = a["value"]
             return True
         if t == "cleanup_dup":
             if a["ref"] in self.registered:      # only if the original registration has been executed in this run
@@ -437,7 +485,8 @@ class Model:
             self.note(e["kind"], e["i"], stage)
         self.fixture_details.append((f, "failed"))
         for n in f["details"]:
-            self.gen_items.append({"type": "fixture-detail", "marker": "FX%d/%s/" % (f["i"], n), "base": n, "t": len(self.log)})
+            self.gen_items.append({"type": "fixture-detail", "marker": "FX%d/%s/" % (f["i"], n), "base": n, "t": len(self.log),
+                                   "payload": b"".join(f["details"][n])})
         return False
 
     def run_cleanup(self, item):
@@ -445,9 +494,14 @@ class Model:
         if kind == "user":
             self.log.append(("C", x["i"]))
             self.run_list(x["body"], "cleanup")
+        elif kind == "burst":
+            self.log.append(("CB",) + tuple(x))
         elif kind == "unpatch":
             o, attr, prev = x
             if prev == "<absent>":
+                if attr not in self.objs[o]:
+                    # the test deleted the attribute that patch() had created: the undo has nothing to delete
+                    self.note("restore_error", None, "cleanup")
                 self.objs[o].pop(attr, None)
             else:
                 self.objs[o][attr] = prev
@@ -460,13 +514,18 @@ class Model:
         elif kind == "gather":
             self.fixture_details.append((x, "ok"))
             for n in x["details"]:
-                self.gen_items.append({"type": "fixture-detail", "marker": "FX%d/%s/" % (x["i"], n), "base": n, "t": len(self.log)})
+                self.gen_items.append({"type": "fixture-detail", "marker": "FX%d/%s/" % (x["i"], n), "base": n, "t": len(self.log),
+                                       "payload": b"".join(x["details"][n])})
 
     def run(self):
         p = self.p
         if self.skipped_by_decorator:
             return self
         ok = self.run_list(p["setUp_pre"], "setUp") and self.run_list(p["setUp_post"], "setUp")
+        if ok and p.get("no_upcall") == "setUp":
+            # TestCase notices that its own setUp was never reached and reports that as an error of setUp
+            self.note("upcall_error", None, "setUp")
+            ok = False
         if ok:
             n0 = len(self.raised)
             body_ok = self.run_list(p["body"], "body")
@@ -479,7 +538,8 @@ class Model:
                     del self.raised[n0:]
                     self.raised.append({"kind": "xfail_sub", "i": None, "stage": "body", "handlers": self.handlers})
             if self.run_list(p["tearDown_pre"], "tearDown"):
-                self.run_list(p["tearDown_post"], "tearDown")
+                if self.run_list(p["tearDown_post"], "tearDown") and p.get("no_upcall") == "tearDown":
+                    self.note("upcall_error", None, "tearDown")
         while self.cleanups:
             self.run_cleanup(self.cleanups.pop())
         # the delayed failure of expectThat / force_failure is raised after the cleanups of a test
@@ -606,6 +666,7 @@ class Live:
     """Everything observable about one run of a built program."""
 
     def __init__(self):
+        self.run_no = 0
         self.log = []
         self.objs = [types.SimpleNamespace(x="orig-x", nonev=None), types.SimpleNamespace(x="orig-x", nonev=None), Slotted()]
         self.cells = {}
@@ -650,8 +711,8 @@ def build_case(prog, live, result_log=None, runner=None):
                 return None
             return Mismatch("mismatch MARK-%d-" % self.i, {n: text_content("M%d/%s" % (self.i, n)) for n in self.names})
 
-    def make_exc(case, kind, i):
-        msg = "MARK-%d-" % i
+    def make_exc(case, kind, i, text=""):
+        msg = "MARK-%d-" % i + text
         if kind == "fail":
             return case.failureException(msg)
         if kind == "assertion_sub":
@@ -664,6 +725,20 @@ def build_case(prog, live, result_log=None, runner=None):
             return FalsyError(msg) if kind == "error_falsy" else RuntimeError(msg)
         if kind == "skip_empty":
             return case.skipException("")
+        if kind == "skip_noargs":
+            return case.skipException()
+        if kind == "skip_int":
+            return case.skipException(42)
+        if kind == "sysexit0":
+            return SystemExit(0)
+        if kind == "sysexit_none":
+            return SystemExit()
+        if kind == "genexit":
+            return GeneratorExit()
+        if kind in ("xf_kbi", "ar_kbi"):
+            return KeyboardInterrupt(msg)
+        if kind == "ar_sysexit":
+            return SystemExit(msg)
         if kind in ("skip", "xf_skip"):
             return case.skipException(msg)
         if kind == "skip_sub":
@@ -688,16 +763,21 @@ def build_case(prog, live, result_log=None, runner=None):
             return CustomFail(msg)
         raise AssertionError(kind)
 
-    def do_raise(case, kind, i):
+    def do_raise(case, kind, i, text=""):
         if kind == "xfail":
             case.expectFailure("MARK-%d-" % i, case.assertEqual, 1, 2)
             raise AssertionError("expectFailure did not raise")
         if kind == "uxsuccess":
             case.expectFailure("MARK-%d-" % i, case.assertEqual, 1, 1)
             raise AssertionError("expectFailure did not raise")
-        e = make_exc(case, kind, i)
+        e = make_exc(case, kind, i, text)
         live.raised_objs.setdefault(i, []).append(e)
-        if kind in ("xf_error", "xf_skip"):
+        if kind in ("ar_kbi", "ar_sysexit"):
+            def raiser():
+                raise e
+            case.assertRaises(ValueError, raiser)
+            raise AssertionError("assertRaises returned")
+        if kind in ("xf_error", "xf_skip", "xf_kbi"):
             # the callable handed to expectFailure raises something that is not a failure
             def predicate():
                 raise e
@@ -753,8 +833,18 @@ def build_case(prog, live, result_log=None, runner=None):
                     raise RuntimeError("MARK-%d-" % -f["i"])
         return F()
 
+    def ret_value(r):
+        """What a stage function returns (the runner must not read anything into it)."""
+        if r is None:
+            return None
+        if r == "gen":
+            return (x for x in ())
+        return {"true": True, "zero": 0, "obj": object(), "str": "returned"}[r]
+
     def step(case, a):
         t = a["a"]
+        if a.get("runs") is not None and live.run_no not in a["runs"]:
+            return
         live.log.append(("A", a["i"]))
         if t == "log":
             return
@@ -769,22 +859,37 @@ def build_case(prog, live, result_log=None, runner=None):
                 if a["ref"] in live.multis:
                     raise live.multis[a["ref"]]
                 return
-            do_raise(case, a["kind"], a["i"])
+            do_raise(case, a["kind"], a["i"], a.get("text", ""))
+        elif t == "cleanup_burst":
+            for k in range(a["n"]):
+                case.addCleanup(lambda k=k: live.log.append(("CB", a["i"], k)))
+        elif t == "write":
+            if a["value"] == "<delete>":
+                if hasattr(live.objs[a["obj"]], a["attr"]):
+                    delattr(live.objs[a["obj"]], a["attr"])
+            else:
+                setattr(live.objs[a["obj"]], a["attr"], a["value"])
         elif t == "cleanup":
             def fn(*args, **kw):
                 live.log.append(("C", a["i"]))
-                if a["args"] and (args != (1, "two") or kw != {"k": 3}):
+                if a["args"] and (args != (1, "two") or kw != ({"fn": 3} if a["args"] == "fn" else {"k": 3})):
                     live.log.append(("BADARGS", a["i"], args, kw))
                 run_actions(case, a["body"])
+                return ret_value(a.get("ret"))
             live.cleanup_fns[a["i"]] = (fn, a["args"])
-            if a["args"]:
+            if a["args"] == "fn":
+                # keyword names that testtools' own plumbing uses for its parameters
+                case.addCleanup(fn, 1, "two", fn=3)
+            elif a["args"]:
                 case.addCleanup(fn, 1, "two", k=3)
             else:
                 case.addCleanup(fn)
         elif t == "cleanup_dup":
             if a["ref"] in live.cleanup_fns:
                 fn, with_args = live.cleanup_fns[a["ref"]]
-                if with_args:
+                if with_args == "fn":
+                    case.addCleanup(fn, 1, "two", fn=3)
+                elif with_args:
                     case.addCleanup(fn, 1, "two", k=3)
                 else:
                     case.addCleanup(fn)
@@ -805,11 +910,11 @@ def build_case(prog, live, result_log=None, runner=None):
             if a["cell"] in live.cells:
                 live.cells[a["cell"]] = a["data"]
         elif t == "expect":
-            case.expectThat(0, WithDetails(a["ok"], a["dnames"], a["i"]))
+            case.expectThat(0, WithDetails(a["ok"], a["dnames"], a["i"]), a.get("message", ""), verbose=a.get("verbose", False))
         elif t == "assert":
-            case.assertThat(0, WithDetails(a["ok"], a["dnames"], a["i"]))
+            case.assertThat(0, WithDetails(a["ok"], a["dnames"], a["i"]), a.get("message", ""), verbose=a.get("verbose", False))
         elif t == "force":
-            case.force_failure = True
+            case.force_failure = {"True": True, "1": 1, "yes": "yes"}[a.get("value", "True")]
         elif t == "onexc":
             hid = a["i"]
 
@@ -832,6 +937,8 @@ def build_case(prog, live, result_log=None, runner=None):
                 getattr(result, h["to"])(c, details=c.getDetails())
             case.exception_handlers.insert(h["pos"], (user_classes[h["cls"]], uh))
 
+    rets = prog.get("rets") or {}
+
     class Generated(testtools.TestCase):
         if runner is not None:
             run_tests_with = runner
@@ -845,16 +952,21 @@ def build_case(prog, live, result_log=None, runner=None):
             if prog.get("handlers_when") == "setUp":
                 install_handlers(self)
             run_actions(self, prog["setUp_pre"])
-            super().setUp()
+            if prog.get("no_upcall") != "setUp":
+                super().setUp()
             run_actions(self, prog["setUp_post"])
+            return ret_value(rets.get("setUp"))
 
         def test_program(self):
             run_actions(self, prog["body"])
+            return ret_value(rets.get("test"))
 
         def tearDown(self):
             run_actions(self, prog["tearDown_pre"])
-            super().tearDown()
+            if prog.get("no_upcall") != "tearDown":
+                super().tearDown()
             run_actions(self, prog["tearDown_post"])
+            return ret_value(rets.get("tearDown"))
 
     if decor == "skip_method":
         Generated.test_program = testtools.skip("decorated")(Generated.test_program)
@@ -878,7 +990,16 @@ def build_case(prog, live, result_log=None, runner=None):
         class OwnSkip(Exception):
             """A project's own skip signal, unrelated to unittest.SkipTest."""
         Generated.skipException = OwnSkip
-    case = Generated("test_program")
+    via = prog.get("runner_via")
+    if via == "decorator" and decor == "none":
+        # the stock runner, but chosen per method with @run_test_with(..)
+        from testtools.runtest import RunTest
+        Generated.test_program = testtools.run_test_with(RunTest)(Generated.test_program)
+    if via == "ctor":
+        from testtools.runtest import RunTest
+        case = Generated("test_program", runTest=RunTest)
+    else:
+        case = Generated("test_program")
     if prog.get("handlers_when", "init") == "init":
         install_handlers(case)
     if prog.get("force_outside"):
